@@ -246,11 +246,14 @@ func (f *Field[T]) Select(selector frontend.Variable, a, b *Element[T]) *Element
 	e := f.newInternalElement(make([]frontend.Variable, nbLimbs), overflow)
 	normalize := func(limbs []frontend.Variable) []frontend.Variable {
 		if len(limbs) < nbLimbs {
-			tail := make([]frontend.Variable, nbLimbs-len(limbs))
-			for i := range tail {
-				tail[i] = 0
+			// copy: appending to limbs could write into a backing array shared
+			// with other elements (e.g. the other outputs of a hint)
+			padded := make([]frontend.Variable, nbLimbs)
+			copy(padded, limbs)
+			for i := len(limbs); i < nbLimbs; i++ {
+				padded[i] = 0
 			}
-			return append(limbs, tail...)
+			return padded
 		}
 		return limbs
 	}
@@ -281,11 +284,14 @@ func (f *Field[T]) Lookup2(b0, b1 frontend.Variable, a, b, c, d *Element[T]) *El
 	e := f.newInternalElement(make([]frontend.Variable, nbLimbs), overflow)
 	normalize := func(limbs []frontend.Variable) []frontend.Variable {
 		if len(limbs) < nbLimbs {
-			tail := make([]frontend.Variable, nbLimbs-len(limbs))
-			for i := range tail {
-				tail[i] = 0
+			// copy: appending to limbs could write into a backing array shared
+			// with other elements (e.g. the other outputs of a hint)
+			padded := make([]frontend.Variable, nbLimbs)
+			copy(padded, limbs)
+			for i := len(limbs); i < nbLimbs; i++ {
+				padded[i] = 0
 			}
-			return append(limbs, tail...)
+			return padded
 		}
 		return limbs
 	}
@@ -322,11 +328,14 @@ func (f *Field[T]) Mux(sel frontend.Variable, inputs ...*Element[T]) *Element[T]
 	}
 	normalize := func(limbs []frontend.Variable) []frontend.Variable {
 		if len(limbs) < nbLimbs {
-			tail := make([]frontend.Variable, nbLimbs-len(limbs))
-			for i := range tail {
-				tail[i] = 0
+			// copy: appending to limbs could write into a backing array shared
+			// with other elements (e.g. the other outputs of a hint)
+			padded := make([]frontend.Variable, nbLimbs)
+			copy(padded, limbs)
+			for i := len(limbs); i < nbLimbs; i++ {
+				padded[i] = 0
 			}
-			return append(limbs, tail...)
+			return padded
 		}
 		return limbs
 	}
